@@ -153,6 +153,8 @@ def eval_case(case) -> Outcome:
     else:
         resolved = [(s, S.label_path(s["zone"])) for s in streams if s["zone"]]
         out.labels.add("synthesised-tree")
+        if any("/" in s["zone"] and "/".join(S.label_path(s["zone"])) != s["zone"] for s in streams):
+            out.labels.add("synthesised-tree+non-canonical-spelling")
     paths = [rp for _, rp in resolved]
     cl = label_classes(paths)
     out.labels |= cl
@@ -228,6 +230,23 @@ def synthesised_case(draw):
     labels = draw(hostile_labels())
     n = draw(st.integers(len(labels), len(labels) + 4))
     ss = _streams(draw, labels, n)
+    # path labels in a non-canonical spelling, stream by stream (the documented tree synthesis trims components and drops
+    # empty ones, so two spellings of one path name the same zone); flat labels are left as they are
+    for s in ss:
+        if "/" in s["zone"]:
+            spell = draw(st.sampled_from(["plain", "plain", "plain", "plain", "blanks", "lead-trail", "trailing-slash", "leading-slash", "double-slash"]))
+            lab = s["zone"]
+            if spell == "blanks":
+                lab = " / ".join(lab.split("/"))
+            elif spell == "lead-trail":
+                lab = " " + lab + " "
+            elif spell == "trailing-slash":
+                lab = lab + "/"
+            elif spell == "leading-slash":
+                lab = "/" + lab
+            elif spell == "double-slash":
+                lab = lab.replace("/", "//", 1)
+            s["zone"] = lab
     us = draw(G.utilities([20.0, 100.0, 200.0], thirds=False))
     return {"streams": draw(st.permutations(ss)), "utilities": us, "run_service": draw(st.booleans())}
 
